@@ -231,6 +231,9 @@ func verifyFunctions(P *Program, funcs []PropFunc, solver *Solver, coverSolver *
 				rep.Covers++
 				continue
 			}
+			if o.Kind == "ensures" {
+				nEns++
+			}
 			if !kindAllowed(pf, o.Kind) {
 				continue
 			}
@@ -238,9 +241,6 @@ func verifyFunctions(P *Program, funcs []PropFunc, solver *Solver, coverSolver *
 			jobs = append(jobs, job{pf.Key, o, q, rterms})
 			rep.Obligations++
 			rep.ByKind[o.Kind]++
-			if o.Kind == "ensures" {
-				nEns++
-			}
 		}
 		if ct := P.contractFor(fn); ct != nil && len(ct.Ensures) > 0 && nEns < len(ct.Ensures) {
 			genErrs = append(genErrs, fmt.Sprintf("%s: %d ensures clauses but only %d ensures obligations were generated (no reachable return?)", pf.Key, len(ct.Ensures), nEns))
